@@ -1280,16 +1280,25 @@ def callback_failure_ok(fail_at, alive: bool, n_items: int = 3, strict_peer: boo
     return True
 
 
-def remote_body_failure_ok(n_sends, raises: bool, sibling_items) -> bool:
-    """WorkerGateway.executetask with a body that sends n items and then raises (or not)."""
+BODY_FAILURES = {1: ("raise ValueError(%r)\n", "ValueError"), 2: ("raise SystemExit(%r)\n", "SystemExit"),
+                 3: ("class AppError(Exception):\n    pass\nraise AppError(%r)\n", "AppError"), 4: ("import sys\nsys.exit(%r)\n", "SystemExit")}
+
+
+def remote_body_failure_ok(n_sends, raises, sibling_items) -> bool:
+    """WorkerGateway.executetask with a body that sends n items and then raises (raises: 0/False = no, True/1 = ValueError,
+    2 = SystemExit, 3 = an exception class of its own, 4 = sys.exit) - KeyboardInterrupt has a documented path of its own."""
+    raises = int(raises)
     W = make_gateway(b"", cls=gb.WorkerGateway, startcount=2)
     W._executetask_complete = None
     ch = W._channelfactory.new(1)
     sib = W._channelfactory.new(3)
     src = "for i in range(%d):\n    channel.send(i)\n" % n_sends
     if raises:
-        src += "raise ValueError(%r)\n" % TOKEN
-    W.executetask((ch, (src, None, None, {})))
+        src += BODY_FAILURES[raises][0] % TOKEN
+    try:
+        W.executetask((ch, (src, None, None, {})))
+    except (SystemExit, KeyboardInterrupt):
+        return False          # the body's exit request escaped from executetask (it would end the worker's executing thread)
     for s in sibling_items:
         sib.send(s)
     if not ch.isclosed() or sib.isclosed():
@@ -1307,7 +1316,7 @@ def remote_body_failure_ok(n_sends, raises: bool, sibling_items) -> bool:
         if last[0] != gb.Message.CHANNEL_CLOSE_ERROR:
             return False
         text = gb.loads_internal(last[2])
-        if "ValueError" not in text or TOKEN not in text or "Traceback" not in text:
+        if BODY_FAILURES[raises][1] not in text or TOKEN not in text or "Traceback" not in text:
             return False
     elif last[0] != gb.Message.CHANNEL_CLOSE:
         return False
